@@ -459,6 +459,67 @@ func ruleNamespaceFlattening(c *core.Ctx) {
 			}
 		}
 		c.Check(okStore, rule, "parsePackageNamespaces/memo store before recursion", d.Pos(), "alreadyParsed[ns] is set before imports are followed (diamonds share one Namespace object)", "the memo is not stored before recursing: a diamond import parses the shared package twice")
+		// every success return behind the memo store passes the loop that follows the imports: a namespace that
+		// was parsed is returned only after each of its imports was handed to the recursion (the loop may run
+		// zero times, it cannot be bypassed). The loop is the set of blocks on a cycle with a recursive call.
+		if store != nil && len(recs) > 0 {
+			reach := func(from *ssa.BasicBlock, avoid map[*ssa.BasicBlock]bool) map[*ssa.BasicBlock]bool {
+				seen := map[*ssa.BasicBlock]bool{}
+				var walk func(b *ssa.BasicBlock)
+				walk = func(b *ssa.BasicBlock) {
+					if seen[b] || avoid[b] {
+						return
+					}
+					seen[b] = true
+					for _, s := range b.Succs {
+						walk(s)
+					}
+				}
+				walk(from)
+				return seen
+			}
+			loop := map[*ssa.BasicBlock]bool{}
+			for _, rc := range recs {
+				fromRc := map[*ssa.BasicBlock]bool{}
+				for _, s := range rc.Block().Succs {
+					for b := range reach(s, nil) {
+						fromRc[b] = true
+					}
+				}
+				for b := range fromRc {
+					if reach(b, nil)[rc.Block()] {
+						loop[b] = true
+					}
+				}
+			}
+			bypass := token.NoPos
+			nbypass := 0
+			if len(loop) > 0 {
+				for b := range reach(store.Block(), loop) {
+					if len(b.Instrs) == 0 {
+						continue
+					}
+					ret, ok := b.Instrs[len(b.Instrs)-1].(*ssa.Return)
+					if !ok || len(ret.Results) == 0 {
+						continue
+					}
+					last := ret.Results[len(ret.Results)-1]
+					if k, isConst := last.(*ssa.Const); isConst && k.IsNil() {
+						nbypass++
+						bypass = ret.Pos()
+					}
+				}
+			}
+			pos := d.Pos()
+			if bypass != token.NoPos {
+				pos = bypass
+			}
+			if len(loop) == 0 {
+				c.Undecided(rule, "parsePackageNamespaces/success behind the imports loop", d.Pos(), "the recursive call is not inside a loop: cannot tell whether every import is followed")
+			} else {
+				c.Check(nbypass == 0, rule, "parsePackageNamespaces/success behind the imports loop", pos, "every success return behind the memo store lies behind the loop that hands each import to the recursion", "a success return is reachable from the memo store without passing the loop over the imports: the imports of such a package are never parsed, a package reached only through it is missing from the environment")
+			}
+		}
 	}
 	// flattenNamespaces
 	fl, fd, _ := c.Func("internal/cmd", "flattenNamespaces")
